@@ -179,7 +179,7 @@ Example C08_example_split_add_is_add : forall c t st,
   /\ cta_results (exec [0; 0]%nat c0) = [Some (fst (step c st (OAdd t)))].
 Proof. exact split_add_sequential_is_add. Qed.
 
-(* Verify is not a read-only region: it caches the payer's balance in the fee table (finding F56: the code runs it
+(* Verify is not a read-only region: it caches the payer's balance in the fee table (finding F59: the code runs it
    under the READ lock) *)
 Example C08_example_verify_writes_fee_table :
   fees (new_pool 3) = [] /\ fees (snd (verify fixed_cfg cta_bal (new_pool 3) cta_tx)) = [((2, 0), (1000, 0))].
